@@ -110,7 +110,9 @@ def run(tier, seed):
               S("Wheat", "Loam", seed=seed + 34, year=2002),
               S("MaizeGDD", "Default", seed=seed + 35, year=2002, regime="hot"),
               S("Potato", "Sand", seed=seed + 36, year=2002, gw={"water_table": "Y", "method": "Variable", "dates": ["2001/01/01", "2002/07/01", "2003/12/31"], "values": [2.0, 0.8, 1.7]},
-                field={"bunds": True, "z_bund": 0.05, "bund_water": 30})]
+                field={"bunds": True, "z_bund": 0.05, "bund_water": 80}),
+              S("PaddyRice", "Paddy", seed=seed + 37, year=2002, regime="monsoon", field={"bunds": True, "z_bund": 0.05}, irr={"method": 5, "kw": {"depth": 20}},
+                iwc={"value": ["FC", "FC"], "depth_layer": [1, 2]})]
     if tier == "thorough":
         shared += [S(c, rnd.choice(L.SOILS), seed=rnd.randrange(10 ** 6), year=2002, irr=rnd.choice(L.irr_variants(rnd, None, None, (4, 20), 2002)),
                      co2=rnd.choice([None, {"constant_conc": True}, {"constant_conc": True, "current_concentration": 480.0}]),
